@@ -214,12 +214,17 @@ def prepareNewRoom (checkGroupEdges : Bool) (r : RoomNode) : Except RErr RoomT :
 
 /-- deviations of the code from C07; `true` = the check is missing (as in /repo) -/
 structure Defects where
-  /-- #22 the references that place an entry in a list are only signature-checked: their author,
-      label and source entity are never compared with the entry's author and the list
-      (room_node.rs:37-90, 203-277). The repair (findings/C07-placing-references.patch): every entry needs a
-      reference with its list's label and its owner's entity, signed by the entry's author (`placingOk`); the
-      references room → group are signed by administrators at their date (`groupsPlacedByAdmins`). -/
+  /-- #22 the references that place an entry in a list are only signature-checked: their label and source entity
+      are never compared with the list, although the next read selects the entries of a list by label
+      (room_node.rs:37-90, 203-277); and the references room → group may be signed by anybody. The repair
+      (findings/C07-placing-references-v2.patch): every entry needs a reference with its list's label and its owner's
+      entity (`placingLabelOk`); the references room → group are signed by administrators at their date
+      (`groupsPlacedByAdmins`). -/
   placingEdgeUnchecked : Bool
+  /-- #22, second half: the AUTHOR of the reference that places an entry is never compared with the entry's author
+      (`placingOk`). Pinned by the repository's own test `room_node::tests::invalid` (a reference re-signed by an
+      unrelated key must be accepted): not repairable without changing that test. -/
+  placingAuthorUnchecked : Bool
   /-- the candidate's room row replaces the stored one without any author, date or entity check
       (room_node.rs:529, 97-98) -/
   roomRowUnchecked : Bool
@@ -239,23 +244,25 @@ deriving Repr, DecidableEq
     `Defects.beforeFixes`): `roomRowUnchecked`, `newGroupUserAdminUnchecked` (/repo 77018f3),
     `newestFirstRead` (/repo f7a29ff), `duplicateIdsUnchecked` (/repo 846341e). -/
 def Defects.asImplemented : Defects :=
-  { -- findings/C07-placing-references.patch
+  { -- findings/C07-placing-references-v2.patch
     placingEdgeUnchecked := true,
+    -- open: pinned by the unit test room_node::tests::invalid (findings/C07-open-findings.md)
+    placingAuthorUnchecked := true,
     roomRowUnchecked := false, newGroupUserAdminUnchecked := false,
     newestFirstRead := false, duplicateIdsUnchecked := false }
 
 /-- /repo at 846341e, before the repair of the placing references: the value the witnesses
     `C07_breaks_placingEdge_*` are stated about, so that they stay true whatever `asImplemented` becomes -/
 def Defects.beforeFix : Defects :=
-  { placingEdgeUnchecked := true, roomRowUnchecked := false, newGroupUserAdminUnchecked := false,
-    newestFirstRead := false, duplicateIdsUnchecked := false }
+  { placingEdgeUnchecked := true, placingAuthorUnchecked := true, roomRowUnchecked := false,
+    newGroupUserAdminUnchecked := false, newestFirstRead := false, duplicateIdsUnchecked := false }
 
 /-- /repo before any of the fixes that this check led to -/
 def Defects.beforeFixes : Defects :=
-  { placingEdgeUnchecked := true, roomRowUnchecked := true, newGroupUserAdminUnchecked := true,
+  { placingEdgeUnchecked := true, placingAuthorUnchecked := true, roomRowUnchecked := true, newGroupUserAdminUnchecked := true,
     newestFirstRead := true, duplicateIdsUnchecked := true }
 def Defects.none : Defects :=
-  { placingEdgeUnchecked := false, roomRowUnchecked := false, newGroupUserAdminUnchecked := false,
+  { placingEdgeUnchecked := false, placingAuthorUnchecked := false, roomRowUnchecked := false, newGroupUserAdminUnchecked := false,
     newestFirstRead := false, duplicateIdsUnchecked := false }
 
 /-- `Edge::eq`: every field but the signature -/
@@ -366,7 +373,7 @@ def prepareNewAuth (d : Defects) (room : RoomT) (a : AuthNode) : Except RErr Uni
   match a.parse with
   | .error e => .error e
   | .ok au =>
-    if !(a.userNodes.all fun n => au.canAdminUsers n.author n.mdate) then .error .notAuthorised
+    if !(a.userNodes.all fun n => au.canAdminUsers n.author n.mdate || room.isAdmin n.author n.mdate) then .error .notAuthorised
     else if !(a.rightNodes.all fun n => room.isAdmin n.author n.mdate) then .error .notAuthorised
     else if !d.newGroupUserAdminUnchecked && !(a.userAdminNodes.all fun n => room.isAdmin n.author n.mdate) then
       .error .notAuthorised
@@ -420,6 +427,14 @@ def checkNewAuths (d : Defects) (room : RoomT) (old : List AuthNode) : List Auth
 def placingOk (ownerEnt label : Nat) (edges : List PEdge) (nodes : List SRow) : Bool :=
   nodes.all fun n => edges.any fun e => e.dst = n.id && e.author = n.author && e.label = label && e.srcEnt = ownerEnt
 
+/-- the same without the author clause: a reference per entry carrying the list's label and the owner's entity -/
+def placingLabelOk (ownerEnt label : Nat) (edges : List PEdge) (nodes : List SRow) : Bool :=
+  nodes.all fun n => edges.any fun e => e.dst = n.id && e.label = label && e.srcEnt = ownerEnt
+
+def AuthNode.placingLabelOk (a : AuthNode) : Bool :=
+  RoomNode.placingLabelOk 101 33 a.rightEdges a.rightNodes && RoomNode.placingLabelOk 101 34 a.userEdges a.userNodes &&
+  RoomNode.placingLabelOk 101 35 a.userAdminEdges a.userAdminNodes
+
 def AuthNode.placingOk (a : AuthNode) : Bool :=
   RoomNode.placingOk 101 33 a.rightEdges a.rightNodes && RoomNode.placingOk 101 34 a.userEdges a.userNodes &&
   RoomNode.placingOk 101 35 a.userAdminEdges a.userAdminNodes
@@ -431,6 +446,12 @@ def RoomNode.placingOk (r : RoomNode) : Bool :=
   Discret.RoomNode.placingOk 100 32 r.adminEdges r.adminNodes &&
   r.authNodes.all fun a =>
     a.placingOk && r.authEdges.any fun e => e.dst = a.node.id && e.label = 33 && e.srcEnt = 100
+
+/-- what the repaired `check_consistency` requires of the references (labels and source entities, no author) -/
+def RoomNode.placingLabelOk (r : RoomNode) : Bool :=
+  Discret.RoomNode.placingLabelOk 100 32 r.adminEdges r.adminNodes &&
+  r.authNodes.all fun a =>
+    a.placingLabelOk && r.authEdges.any fun e => e.dst = a.node.id && e.label = 33 && e.srcEnt = 100
 
 /-- the candidate after the merge: its own room row (to be written over the stored slot), the stored
     references pushed and sorted by date, the merged and sorted admin entries, the merged groups -/
@@ -595,7 +616,8 @@ deriving Repr, DecidableEq
 def accept (d : Defects) (s : RStore) (cand : RoomNode) : Verdict :=
   if !cand.sigsOk then .err .signature
   else if !cand.consistent then .err .inconsistent
-  else if !d.placingEdgeUnchecked && !cand.placingOk then .err .inconsistent
+  else if !d.placingEdgeUnchecked && !cand.placingLabelOk then .err .inconsistent
+  else if !d.placingAuthorUnchecked && !cand.placingOk then .err .inconsistent
   else if !d.duplicateIdsUnchecked && !cand.idsDistinct then .err .inconsistent
   else
     match s.rooms.find? (·.id = cand.node.id) with
